@@ -210,6 +210,17 @@ func c14Ops() []c14Op {
 			res, _ := gqlResult(ctx, n, fmt.Sprintf(`mutation { delete_U(docID: %q) { _docID } }`, n.docs[len(n.docs)-1]))
 			return res
 		}},
+		{"add materialized view UV", func(ctx context.Context, n *c14Node) string {
+			cols, err := n.db.AddView(ctx, `U { name }`, `type UV { name: String }`, immutable.None[model.Lens]())
+			out := errStr(err)
+			for _, c := range cols {
+				out += " " + c.Version.Name + "/" + c.Version.VersionID
+			}
+			return out
+		}},
+		{"refresh views", func(ctx context.Context, n *c14Node) string {
+			return errStr(n.db.RefreshViews(ctx, client.CollectionFetchOptions{}))
+		}},
 		{"create V", func(ctx context.Context, n *c14Node) string {
 			n.ndocs++
 			res, _ := gqlResult(ctx, n, fmt.Sprintf(`mutation { create_V(input: {m: "m%d"}) { _docID } }`, n.ndocs))
@@ -246,6 +257,11 @@ func c14Dump(ctx context.Context, d *db.DB) string {
 		}
 		data, errs := world.Exec(ctx, d, fmt.Sprintf(`query { %s(showDeleted: true) { _docID _deleted %s _version { cid height } } }`, v.Name, strings.Join(fields, " ")))
 		b.WriteString(fmt.Sprintf("documents %s %s %v\n", v.Name, world.CanonRowsUnordered(world.Rows(data, v.Name)), errs))
+		if v.Name == "UV" {
+			// a materialized view: its cached items are what a client reads
+			data, errs = world.Exec(ctx, d, `query { UV { name } }`)
+			b.WriteString(fmt.Sprintf("view UV: %s %v\n", world.CanonRowsUnordered(world.Rows(data, "UV")), errs))
+		}
 		// an index-backed read and a probe that needs the GraphQL types
 		if v.Name == "U" {
 			data, errs = world.Exec(ctx, d, `query { U(filter: {a: {_eq: 1}}) { name } }`)
@@ -255,7 +271,7 @@ func c14Dump(ctx context.Context, d *db.DB) string {
 		}
 	}
 	// the in-memory GraphQL type system, by introspection
-	for _, tn := range []string{"U", "V"} {
+	for _, tn := range []string{"U", "V", "UV"} {
 		ti, terrs := world.Exec(ctx, d, fmt.Sprintf(`query { __type(name: %q) { fields { name } } }`, tn))
 		b.WriteString(fmt.Sprintf("graphql type %s: %s %v\n", tn, world.Canon(ti), terrs))
 	}
@@ -285,7 +301,10 @@ func runC14(args []string) int {
 	ops := c14Ops()
 	// histories in which an operation has nothing to act on (no document / index / second version /
 	// collection V yet) are not generated: the operation would return its "no ..." sentinel only
-	type gm struct{ versions, indexes, docs int; hasV bool }
+	type gm struct {
+		versions, indexes, docs int
+		hasV, hasView           bool
+	}
 	applicable := func(m gm, name string) bool {
 		switch {
 		case strings.HasPrefix(name, "switch active version"):
@@ -298,6 +317,10 @@ func runC14(args []string) int {
 			return m.hasV
 		case name == "add schema V":
 			return !m.hasV
+		case name == "add materialized view UV":
+			return !m.hasView
+		case name == "refresh views":
+			return m.hasView
 		}
 		return true
 	}
@@ -305,6 +328,8 @@ func runC14(args []string) int {
 		switch {
 		case name == "add schema V":
 			m.hasV = true
+		case name == "add materialized view UV":
+			m.hasView = true
 		case strings.HasPrefix(name, "patch U +e") && !strings.Contains(name, "discarded"):
 			m.versions++
 		case strings.HasPrefix(name, "create index") || strings.HasPrefix(name, "create unique index"):
